@@ -633,6 +633,13 @@ func fsRecordAPI(ew *eventWriter, t int, rng interface {
 		}
 		nw++
 		res.Name = benchfmt.Name(fmt.Sprintf("T%d/w=%d", t, nw))
+		if rng.Intn(5) == 0 {
+			// names that begin with the format's own keywords
+			res.Name = benchfmt.Name([]string{"Benchmark", "Benchmarks", "BenchmarkT", "Unit", "BenchmarkBenchmark"}[rng.Intn(5)] + fmt.Sprintf("%d/w=%d", t%3, nw))
+			if rng.Intn(4) == 0 {
+				res.Name = benchfmt.Name("Benchmark")
+			}
+		}
 		res.Iters = nw
 		res.Values = fsRandValues(rng)
 		before := buf.Len()
@@ -871,7 +878,11 @@ func fsRandText(rng interface {
 				fmt.Fprintf(&sb, "Unit %s %s=%s\n", units[rng.Intn(len(units))], []string{"better", "assume"}[rng.Intn(2)], []string{"higher", "lower", "exact", "nothing"}[rng.Intn(4)])
 			}
 		default:
-			fmt.Fprintf(&sb, "BenchmarkT%d/i=%d-%d %d", t, i, 1+rng.Intn(16), 1+rng.Intn(1000))
+			kw := ""
+			if rng.Intn(6) == 0 {
+				kw = []string{"Benchmark", "Benchmarks", "Unit"}[rng.Intn(3)]
+			}
+			fmt.Fprintf(&sb, "Benchmark%sT%d/i=%d-%d %d", kw, t, i, 1+rng.Intn(16), 1+rng.Intn(1000))
 			nv := 1 + rng.Intn(3)
 			for j := 0; j < nv; j++ {
 				fmt.Fprintf(&sb, " %s %s", nums[rng.Intn(len(nums))], units[rng.Intn(len(units))])
